@@ -151,7 +151,7 @@ def _templates():
     return T, conflict
 
 
-CONFLICT = ["Sliced_ss", "Sliced_as", "Sliced_aa", "GetItem_ss", "BlockDiag_list", "BlockDiag_arr",
+CONFLICT = ["Sliced_ss", "Sliced_as", "Sliced_aa", "GetItem_ss", "GetItem_aa", "BlockDiag_list", "BlockDiag_arr",
             "LanczosUnary_plain", "LanczosUnary_sv", "Product_II", "Product_DD", "Product_SsSs", "Product_SaSa"]
 
 
@@ -250,29 +250,18 @@ def describe_leaves(obj):
 
 
 def heavy_observe(obj):
-    """unflatten round trip and leaf substitution."""
+    """leaf substitution, then unflatten round trip (the round trip densifies, which is a public call that may
+    itself touch the operator, so it comes last)."""
     np = _np()
     res = {}
     leaves, unflatten = obj.flatten()
-    try:
-        o2 = unflatten(leaves)
-        rt = {"kind": type(o2) is type(obj), "shape": tuple(o2.shape) == tuple(obj.shape), "dtype": o2.dtype == obj.dtype,
-              "annotations": o2.annotations == obj.annotations}
-        with warnings.catch_warnings(), np.errstate(all="ignore"):
-            warnings.simplefilter("ignore")
-            d1, d2 = np.asarray(obj.to_dense()), np.asarray(o2.to_dense())
-        rt["dense"] = bool(d1.shape == d2.shape and np.array_equal(d1, d2, equal_nan=True))
-        res["roundtrip"] = rt
-    except Exception as e:  # noqa: BLE001
-        res["roundtrip"] = {"exc": f"{type(e).__name__}: {str(e)[:120]}"}
     params = array_params(obj)
     sub = []
     for i, x in enumerate(leaves):
         if not isinstance(x, np.ndarray):
             continue
         marker = np.array(x, copy=True)
-        marker = marker + 1 if marker.dtype != bool else ~marker
-        marker = marker.astype(x.dtype)
+        marker[...] = ~marker if marker.dtype == bool else marker + 1
         new = list(leaves)
         new[i] = marker
         try:
@@ -290,6 +279,17 @@ def heavy_observe(obj):
         except Exception as e:  # noqa: BLE001
             sub.append({"leaf": i, "exc": f"{type(e).__name__}: {str(e)[:120]}"})
     res["substitution"] = sub
+    try:
+        o2 = unflatten(leaves)
+        rt = {"kind": type(o2) is type(obj), "shape": tuple(o2.shape) == tuple(obj.shape), "dtype": o2.dtype == obj.dtype,
+              "annotations": o2.annotations == obj.annotations}
+        with warnings.catch_warnings(), np.errstate(all="ignore"):
+            warnings.simplefilter("ignore")
+            d1, d2 = np.asarray(obj.to_dense()), np.asarray(o2.to_dense())
+        rt["dense"] = bool(d1.shape == d2.shape and np.array_equal(d1, d2, equal_nan=True))
+        res["roundtrip"] = rt
+    except Exception as e:  # noqa: BLE001
+        res["roundtrip"] = {"exc": f"{type(e).__name__}: {str(e)[:120]}"}
     return res
 
 
@@ -697,7 +697,30 @@ def registry_part(tier, wd, viol, cov, extra):
         for tag in lines_by:
             for ln in lines_by[tag]:
                 model.setdefault(tuple(ln["h"]), ln)
-        orders = sorted(model)
+        longest = max(len(o) for o in model)
+        if tier == "quick" and longest >= 3:
+            # all orders of length <= 2, every triple the model marks as genuinely order-3-sensitive (its prediction
+            # for the last template is none of the predictions after the sub-orders), and a seeded sample of the rest
+            def sig(o):
+                pm = model[o]["pred"][-1]
+                return json.dumps([pm["leaves"], pm["reg"]], sort_keys=True)
+            sel = {o for o in model if len(o) <= 2}
+            rest = []
+            for o in sorted(model):
+                if len(o) == 3:
+                    subs = {sig((o[2], )), sig((o[0], o[2])), sig((o[1], o[2]))}
+                    if sig(o) not in subs:
+                        sel.add(o)
+                    else:
+                        rest.append(o)
+            random.Random(common.seed()).shuffle(rest)
+            sel |= set(rest[:160])
+        else:
+            sel = set(model)
+        # an order that is a prefix of another selected order is observed as part of it
+        prefixes = {o[:k] for o in sel for k in range(1, len(o))}
+        orders = sorted(o for o in sel if o not in prefixes)
+        n_selected = len(sel)
         obs = pool.map([{"kind": "order", "order": list(o)} for o in orders])
         # cross-check of the zygote mechanism against plain `python -B -c` subprocesses
         sub_orders = [o for o in orders if len(o) <= 2][:: max(1, len([o for o in orders if len(o) <= 2]) // (16 if tier == "quick" else 96))]
@@ -804,6 +827,7 @@ def registry_part(tier, wd, viol, cov, extra):
     cov.update({
         "registry_states": sum(r.distinct for r in runs), "registry_transitions": sum(r.states for r in runs),
         "registry_orders_replayed_in_fresh_interpreters": len(orders), "registry_steps_observed": steps_checked,
+        "registry_orders_model_checked": len(model), "registry_orders_covered_by_replay": n_selected,
         "registry_templates": len(T_all), "registry_conflict_templates": len(CONFLICT),
         "registry_order_length": {t: ml for t, _, ml in plan},
         "registry_model_counterexamples": n_model_bad + len(bad_next),
@@ -821,5 +845,587 @@ def _template_names():
                        "Adjoint", "Sum_DD", "Kronecker_DD", "Kronecker_II", "KronSum_DD", "Permutation", "Concatenated",
                        "Householder", "Kernel", "FFT", "Jacobian", "Hessian", "Generic_matmat", "PSD_Dense",
                        "NystromPrecond", "TriangularInv", "LSTSQSolve", "ArnoldiUnary_plain", "ArnoldiUnary_sv",
-                       "IterOp_CG", "IterOp_CGx0", "IterOp_GMRESx0", "Product_DgD", "GetItem_ss", "GetItem_aa",
-                       "GetItem_s"]
+                       "IterOp_CG", "IterOp_CGx0", "IterOp_GMRESx0", "Product_DgD", "GetItem_s"]
+
+
+# =================================================================================================
+#                                        PERSISTENCE
+# =================================================================================================
+# (name, requirement on the operand, descriptor of the created operator) - rendered into PersistModel.tla
+PERSIST_ACTS = [
+    ("matmul", "any", "none"), ("rmatmul", "any", "none"), ("to_dense", "any", "none"), ("diag_trace", "any", "none"),
+    ("solve_cg", "spd", "none"), ("solve_gmres", "any", "none"), ("lanczos", "spd", "none"), ("arnoldi", "any", "none"),
+    ("T", "any", "same"), ("H", "any", "same"), ("smul", "any", "same"), ("annotate", "spd", "same"),
+    ("flatten_unflatten", "any", "same"), ("to", "any", "same"), ("getitem", "n3", "sub"),
+    ("inv_cg", "spd", "spd"), ("inv_gmres", "any", "same"), ("exp", "any", "same"), ("exp_lanczos", "spd", "spd"),
+    ("add", "same", "and"), ("dot", "same", "gen"), ("kron", "kron", "kron"),
+]
+PERSIST_POOL = [{"n": 3, "spd": True}, {"n": 3, "spd": True}, {"n": 4, "spd": False}, {"n": 3, "spd": False}]
+DIMS = (2, 3, 4, 6, 9, 12)
+
+
+def render_persist_model(max_len, sample_mod=1, sample_res=0):
+    acts = [{"name": a, "req": r, "out": o} for a, r, o in PERSIST_ACTS]
+    return ("---- MODULE PersistModel ----\n\\* generated by harness/props/c18.py\nEXTENDS Integers, Sequences\n"
+            f"PM_Pool == {tla.to_tla(PERSIST_POOL)}\nPM_Acts == {tla.to_tla(acts)}\nPM_MaxLen == {max_len}\n"
+            f"PM_SampleMod == {sample_mod}\nPM_SampleRes == {sample_res}\n====\n")
+
+
+def _enabled(req, d, pool=PERSIST_POOL):
+    if req == "any":
+        return True
+    if req == "spd":
+        return d["spd"]
+    if req == "n3":
+        return d["n"] >= 3
+    if req == "same":
+        return any(p["n"] == d["n"] for p in pool)
+    if req == "kron":
+        return d["n"] * pool[1]["n"] <= 12
+    raise ValueError(req)
+
+
+def _result(out, d, pool=PERSIST_POOL):
+    if out == "none":
+        return None
+    if out == "same":
+        return dict(d)
+    if out == "spd":
+        return {"n": d["n"], "spd": True}
+    if out == "sub":
+        return {"n": 2, "spd": d["spd"]}
+    base = next((p for p in pool if p["n"] == d["n"]), None)
+    if out == "and":
+        return {"n": d["n"], "spd": d["spd"] and base["spd"]}
+    if out == "gen":
+        return {"n": d["n"], "spd": False}
+    if out == "kron":
+        return {"n": d["n"] * pool[1]["n"], "spd": d["spd"] and pool[1]["spd"]}
+    raise ValueError(out)
+
+
+def random_sequences(count, length, seed):
+    """Seeded well-typed sequences (same applicability rules as MC_Persist)."""
+    rng = random.Random(seed)
+    out = []
+    for _ in range(count):
+        live = [dict(p) for p in PERSIST_POOL]
+        seq = []
+        for _ in range(length):
+            for _try in range(50):
+                ai = rng.randrange(len(PERSIST_ACTS))
+                x = rng.randrange(len(live))
+                # prefer operating on recently created operators
+                if rng.random() < 0.5:
+                    x = len(live) - 1 - min(rng.randrange(3), len(live) - 1)
+                name, req, res = PERSIST_ACTS[ai]
+                if _enabled(req, live[x]) and (res == "none" or len(live) < 9):
+                    break
+            else:
+                break
+            seq.append((ai + 1, x + 1))
+            r = _result(res, live[x])
+            if r is not None:
+                live.append(r)
+        out.append(tuple(seq))
+    return out
+
+
+def _hx(*parts):
+    h = hashlib.sha256()
+    for p in parts:
+        h.update(p if isinstance(p, bytes) else str(p).encode())
+        h.update(b"|")
+    return h.hexdigest()[:16]
+
+
+def _arr_digest(a):
+    np = _np()
+    a = np.asarray(a)
+    return _hx(str(a.dtype), a.shape, np.ascontiguousarray(a).tobytes())
+
+
+def _val_digest(x):
+    np = _np()
+    if isinstance(x, np.ndarray) or isinstance(x, np.generic):
+        return _arr_digest(x)
+    if _is_op(x):
+        return _hx("op", type(x).__name__.split("[")[0], *[_val_digest(v) for v in x.flatten()[0]])
+    if isinstance(x, (tuple, list)):
+        return _hx("seq", *[_val_digest(v) for v in x])
+    if isinstance(x, dict):
+        return "info"
+    return _hx(repr(x))
+
+
+class World:
+    """Caller-owned arrays and the live operators of one replayed path."""
+    def __init__(self):
+        np = _np()
+        import cola
+        from cola import ops
+        rng = np.random.RandomState(1818)
+        self.owned = {}
+        for n in DIMS:
+            self.owned[f"b{n}"] = rng.randint(-3, 4, size=(n, )).astype(np.float64)
+            self.owned[f"B{n}"] = rng.randint(-3, 4, size=(n, 2)).astype(np.float64)
+            self.owned[f"x0{n}"] = rng.randint(-2, 3, size=(n, )).astype(np.float64)
+            self.owned[f"v0{n}"] = rng.randint(1, 4, size=(n, )).astype(np.float64)
+        self.owned["idx_r"] = np.array([0, 2])
+        self.owned["idx_c"] = np.array([0, 2])
+        self.owned["S3"] = _S(3, seed=7)
+        self.owned["d3"] = np.array([2., 1., 3.])
+        self.owned["a2"] = _M(2, seed=3) + 3 * np.eye(2)
+        self.owned["c2"] = _M(2, seed=4) - 3 * np.eye(2)
+        self.owned["perm3"] = np.array([2, 0, 1])
+        self.names = sorted(self.owned)
+        o = self.owned
+        self.ops = [cola.PSD(ops.Dense(o["S3"])), ops.Diagonal(o["d3"]),
+                    ops.Kronecker(ops.Dense(o["a2"]), ops.Dense(o["c2"])), ops.Permutation(o["perm3"], dtype=np.float64)]
+
+    def arr(self, name):
+        return self.owned[name]
+
+    def apply(self, ai, x):
+        """Execute action ai (1-based) on live operator x (1-based).  Returns the result digest; appends a created
+        operator to self.ops."""
+        np = _np()
+        name, _, out = PERSIST_ACTS[ai - 1]
+        A = self.ops[x - 1]
+        try:
+            with warnings.catch_warnings(), np.errstate(all="ignore"):
+                warnings.simplefilter("ignore")
+                r = _do(self, name, A)
+        except Exception as e:  # noqa: BLE001
+            return "exc:" + type(e).__name__
+        if out != "none":
+            if not _is_op(r):
+                return "notop:" + _val_digest(r)
+            self.ops.append(r)
+            return "op"          # completed below with the triple of the new operator
+        return _val_digest(r)
+
+    def snapshot(self):
+        """(owned digests, [(dense, ann, leaves_before_densify, kind)], indices whose leaves moved while densifying)."""
+        np = _np()
+        trip, moved = [], []
+        for i, A in enumerate(self.ops):
+            l1 = _leaves_digest(A)
+            try:
+                with warnings.catch_warnings(), np.errstate(all="ignore"):
+                    warnings.simplefilter("ignore")
+                    d = _arr_digest(np.asarray(A.to_dense()))
+            except Exception as e:  # noqa: BLE001
+                d = "exc:" + type(e).__name__
+            l2 = _leaves_digest(A)
+            ann = ",".join(sorted(a.__name__ for a in A.annotations))
+            trip.append([d, ann, l1, l2, type(A).__name__.split("[")[0]])
+            if l1 != l2:
+                moved.append(i)
+        ow = [_arr_digest(self.owned[k]) for k in self.names]     # after densifying: that is a public call too
+        return ow, trip, moved
+
+
+def _leaves_digest(A):
+    try:
+        return _hx(*[_val_digest(v) if not _is_op(v) else "op" for v in A.flatten()[0]])
+    except Exception as e:  # noqa: BLE001
+        return "exc:" + type(e).__name__
+
+
+def _do(w, name, A):
+    import cola
+    from cola.linalg.decompositions.arnoldi import arnoldi
+    from cola.linalg.decompositions.decompositions import Lanczos
+    from cola.linalg.decompositions.lanczos import lanczos
+    from cola.linalg.inverse.cg import CG
+    from cola.linalg.inverse.gmres import GMRES
+    n = A.shape[0]
+    b, B, x0, v0 = w.arr(f"b{n}"), w.arr(f"B{n}"), w.arr(f"x0{n}"), w.arr(f"v0{n}")
+    if name == "matmul":
+        return (A @ b, A @ B)
+    if name == "rmatmul":
+        return (b @ A, B.T @ A)
+    if name == "to_dense":
+        return A.to_dense()
+    if name == "diag_trace":
+        return (cola.linalg.diag(A, 0), cola.linalg.diag(A, 1), cola.linalg.trace(A))
+    if name == "solve_cg":
+        return cola.linalg.solve(A, b, CG(x0=x0, tol=1e-8, max_iters=40))
+    if name == "solve_gmres":
+        return cola.linalg.solve(A, b, GMRES(x0=x0, tol=1e-8, max_iters=n))
+    if name == "lanczos":
+        return lanczos(A, start_vector=v0, max_iters=n)[:2]
+    if name == "arnoldi":
+        return arnoldi(A, start_vector=v0, max_iters=n)[:2]
+    if name == "T":
+        return A.T
+    if name == "H":
+        return A.H
+    if name == "smul":
+        return 2.0 * A
+    if name == "annotate":
+        return cola.PSD(A)
+    if name == "flatten_unflatten":
+        leaves, unflatten = A.flatten()
+        return unflatten(leaves)
+    if name == "to":
+        return A.to(None)
+    if name == "getitem":
+        return A[w.arr("idx_r"), w.arr("idx_c")]
+    if name == "inv_cg":
+        return cola.linalg.inv(A, CG(x0=x0, tol=1e-8, max_iters=40))
+    if name == "inv_gmres":
+        return cola.linalg.inv(A, GMRES(x0=x0, tol=1e-8, max_iters=n))
+    if name == "exp":
+        return cola.linalg.exp(A)
+    if name == "exp_lanczos":
+        return cola.linalg.exp(A, Lanczos(start_vector=v0, max_iters=n))
+    base = next((i for i, p in enumerate(PERSIST_POOL) if p["n"] == n), None)
+    if name == "add":
+        return A + w.ops[base]
+    if name == "dot":
+        return A @ w.ops[base]
+    if name == "kron":
+        return cola.kron(A, w.ops[1])
+    raise ValueError(name)
+
+
+def _persist_task(task):
+    """task = (prefix, suffixes): execute the prefix from a fresh world, then the suffix trie depth-first on the
+    same live objects.  Returns [(path, sig, res, ow, triples)] (path () = initial snapshot)."""
+    from .. import fastimport
+    fastimport.install()
+    from .. import build  # noqa: F401
+    prefix, suffixes, record_prefix = task
+    out = []
+
+    def fresh(path, record):
+        w = World()
+        ow, trip, moved = w.snapshot()
+        trip = [[t[0], t[1], t[2], t[4]] for t in trip]
+        if record:
+            out.append(((), None, "init", ow, trip))
+        prev = (ow, trip)
+        p = ()
+        for k, (ai, x) in enumerate(path):
+            prev, p, _ = step(w, p, ai, x, prev, record and (record_prefix or k == len(path) - 1))
+        return w, prev, p
+
+    def step(w, path, ai, x, prev, record):
+        """apply + snapshot (+ synthetic observe node).  Returns (new prev, new path, dirty)."""
+        res = w.apply(ai, x)
+        ow, trip, moved = w.snapshot()
+        if res == "op":
+            res = "op:" + _hx(*trip[-1][:3])
+        p2 = path + ((ai, x), )
+        # the recorded leaves are those BEFORE the harness densified; if densifying moved them, a synthetic
+        # `to_dense` event follows whose leaves are the ones after
+        pre = [[t[0], t[1], t[2], t[4]] for t in trip]
+        post = [[t[0], t[1], t[3], t[4]] for t in trip]
+        dirty = ow != prev[0] or any(a[:3] != b[:3] for a, b in zip(prev[1], pre))
+        if record:
+            out.append((p2, (ai, x), res, ow, pre))
+        if moved:
+            p2 = p2 + ((0, moved[0] + 1), )
+            if record:
+                out.append((p2, (0, moved[0] + 1), "obs", ow, post))
+            dirty = True
+        return (ow, post), p2, dirty
+
+    def dfs(w, prev, path, logical, sub):
+        """`logical` is the action path (without synthetic nodes) used to rebuild."""
+        dirty_any = False
+        for key in sorted(sub):
+            ai, x = key
+            n_ops = len(w.ops)
+            prev2, p2, dirty = step(w, path, ai, x, prev, True)
+            d2 = dfs(w, prev2, p2, logical + (key, ), sub[key]) if sub[key] else False
+            if dirty or d2:
+                dirty_any = True
+                w2, prevr, _ = fresh(logical, False)
+                w.owned, w.ops, w.names = w2.owned, w2.ops, w2.names
+            else:
+                del w.ops[n_ops:]
+        return dirty_any
+
+    w, prev, p = fresh(prefix, True)
+    trie = {}
+    for s in suffixes:
+        d = trie
+        for a in s:
+            d = d.setdefault(tuple(a), {})
+    dfs(w, prev, p, tuple(tuple(a) for a in prefix), trie)
+    return out
+
+
+def persist_execute(seqs, split):
+    groups = {}
+    for s in seqs:
+        s = tuple(tuple(a) for a in s)
+        groups.setdefault(s[:split], []).append(s[split:])
+    tasks = []
+    seen = set()
+    for pre in sorted(groups):
+        # record the earlier prefix nodes once (by the first task that shares them)
+        rec = pre[:-1] not in seen
+        seen.add(pre[:-1])
+        tasks.append((pre, [x for x in groups[pre] if x], rec))
+    res = common.pmap(_persist_task, tasks, chunksize=2)
+    nodes = {}
+    for lst in res:
+        for path, sig, r, ow, trip in lst:
+            nodes.setdefault(path, (sig, r, ow, trip))
+    return nodes
+
+
+def persist_records(nodes):
+    """BFS numbering with contiguous children; interning of digests."""
+    intern = {}
+
+    def iid(x):
+        return intern.setdefault(x, len(intern) + 1)
+
+    kids = {}
+    for p in nodes:
+        if p != ():
+            kids.setdefault(p[:-1], []).append(p)
+    for k in kids:
+        kids[k].sort()
+    order = [()]
+    i = 0
+    while i < len(order):
+        order.extend(kids.get(order[i], []))
+        i += 1
+    pos = {p: k + 1 for k, p in enumerate(order)}
+    recs = []
+    for p in order:
+        sig, r, ow, trip = nodes[p]
+        ch = kids.get(p, [])
+        recs.append({"p": pos[p[:-1]] if p != () else 0, "fc": pos[ch[0]] if ch else 1, "nc": len(ch),
+                     "sig": iid(("sig", sig)) if sig else 0, "res": iid(("res", r)),
+                     "ow": iid(("ow", tuple(ow))),
+                     "ops": [{"d": iid(("d", t[0])), "a": iid(("a", t[1])), "l": iid(("l", t[2]))} for t in trip]})
+    return recs, order
+
+
+def persist_validate(wd, recs, tag="persist", workers=16):
+    path = os.path.join(wd, f"{tag}.ndjson")
+    with open(path, "w") as fh:
+        for r in recs:
+            fh.write(json.dumps(r, separators=(",", ":")) + "\n")
+    os.environ["TRACE_FILE"] = path
+    try:
+        res = tla.run_tlc("Trace_Persist", "SPECIFICATION Spec\nINVARIANT Verdict\n", wd, workers=workers)
+    finally:
+        os.environ.pop("TRACE_FILE", None)
+    if res.error or res.violated:
+        raise tla.TLCError(f"Trace_Persist failed: {res.error or res.violated}\n" + res.out[-2000:])
+    if res.distinct != len(recs):
+        raise tla.TLCError(f"Trace_Persist visited {res.distinct} of {len(recs)} recorded events")
+    return res, {r["l"]: r["v"] for r in res.json_lines()}
+
+
+def _act_name(key):
+    ai, x = key
+    return "to_dense" if ai == 0 else PERSIST_ACTS[ai - 1][0]
+
+
+def _path_str(p):
+    return " ; ".join(f"{_act_name(k)}(#{k[1]})" for k in p)
+
+
+def persist_part(tier, wd, viol, cov):
+    depth = 2 if tier == "quick" else 3
+    sample_mod = 1 if tier == "quick" else 8
+    mcr = tla.run_tlc("MC_Persist", "SPECIFICATION MCSpec\nINVARIANT Typed\nINVARIANT Emit\nPROPERTY Persistence\n"
+                      "PROPERTY MemoStable\n", wd,
+                      gen_files={"PersistModel.tla": render_persist_model(depth, sample_mod, common.seed() % sample_mod)})
+    if mcr.error or mcr.violated:
+        raise tla.TLCError(f"MC_Persist failed: {mcr.error or mcr.violated}\n" + mcr.out[-2000:])
+    seqs = [tuple(tuple(a) for a in ln["h"]) for ln in mcr.json_lines()]
+    n_tlc = len(seqs)
+    rnd = random_sequences(24 if tier == "quick" else 240, 10 if tier == "quick" else 14, common.seed() + 18)
+    nodes = persist_execute(list(seqs), split=1 if depth == 2 else 2)
+    nodes_r = persist_execute(rnd, split=1)
+    for p, v in nodes_r.items():
+        nodes.setdefault(p, v)
+    if nodes[()][2:] != nodes_r[()][2:]:
+        raise RuntimeError("initial snapshots differ between workers")
+    recs, order = persist_records(nodes)
+    tres, bad = persist_validate(wd, recs)
+    # ---- rejected events -> violations (which entry changed is read off the recording)
+    agg = {}
+    for l, v in sorted(bad.items()):
+        p = order[l - 1]
+        sig, r, ow, trip = nodes[p]
+        psig, pr, pow_, ptrip = nodes[p[:-1]]
+        action = _act_name(p[-1])
+        operand_kind = ptrip[p[-1][1] - 1][3] if p[-1][1] - 1 < len(ptrip) else "?"
+        found = []
+        if not v["arr"]:
+            names = sorted(_owned_names())
+            changed = [names[i] for i, (a, b) in enumerate(zip(pow_, ow)) if a != b]
+            found.append(("array_mutated", {"arrays": changed}, f"caller-owned array(s) {changed} changed"))
+        for flag, clause, idx, part in (("den", "operator_changed", 0, "dense"), ("lea", "operator_changed", 2, "leaves"),
+                                        ("ann", "annotations_changed", 1, "annotations")):
+            if not v[flag]:
+                ch = [(i + 1, ptrip[i][3]) for i in range(min(len(ptrip), len(trip))) if ptrip[i][idx] != trip[i][idx]]
+                found.append((clause, {"part": part, "changed_kinds": sorted({k for _, k in ch})},
+                              f"{part} of pre-existing operator(s) {ch} changed"))
+        if not v["grow"]:
+            found.append(("operator_changed", {"part": "pool"}, f"live operators went from {len(ptrip)} to {len(trip)}"))
+        if not v["rep"]:
+            found.append(("repeat_differs", {}, "a repeated call returned a different result"))
+        for clause, at, detail in found:
+            attrs = dict(at, action=action, kind=operand_kind)
+            key = (clause, action, operand_kind, json.dumps(at, sort_keys=True))
+            ent = agg.setdefault(key, [0, p, attrs, detail])
+            ent[0] += 1
+            if len(p) < len(ent[1]):
+                ent[1], ent[3] = p, detail
+    for (clause, action, kind, _), (cnt, p, attrs, detail) in sorted(agg.items()):
+        viol.append(Violation(PROP, clause, f"{action} on {kind}: {_path_str(p)}", attrs,
+                              f"{detail} [{cnt} recorded event(s) rejected by Trace_Persist]",
+                              replay={"kind": "persist", "path": [list(k) for k in p if k[0] != 0]}))
+    # ---- negative controls
+    small_nodes = {p: v for p, v in nodes.items() if len(p) <= 1 and all(k[0] != 0 for k in p)}
+    srecs, sorder = persist_records(small_nodes)
+    neg = 0
+    i = next(k for k, r in enumerate(srecs) if r["p"] != 0)
+    for field in ("ow", "d", "a", "l"):
+        mut = json.loads(json.dumps(srecs))
+        if field == "ow":
+            mut[i]["ow"] = 999999
+        else:
+            mut[i]["ops"][0][field] = 999999
+        _, nb = persist_validate(wd, mut, tag="neg_" + field, workers=1)
+        v = nb.get(i + 1)
+        want = {"ow": "arr", "d": "den", "a": "ann", "l": "lea"}[field]
+        if v is not None and not v[want]:
+            neg += 1
+    # repeated call with a different result
+    mut = json.loads(json.dumps(srecs))
+    first = mut[i]
+    extra_node = dict(first, p=i + 1, fc=1, nc=0, res=999999)
+    mut[i]["fc"], mut[i]["nc"] = len(mut) + 1, 1
+    mut.append(extra_node)
+    _, nb = persist_validate(wd, mut, tag="neg_rep", workers=1)
+    if nb.get(len(mut)) is not None and not nb[len(mut)]["rep"]:
+        neg += 1
+    if neg != 5:
+        common.machinery_failure(PROP, f"Trace_Persist accepted a corrupted recording ({neg} of 5 controls rejected)")
+    n_paths = len(seqs) + len(rnd)
+    kinds_seen = sorted({t[3] for v in nodes.values() for t in v[3]})
+    cov.update({
+        "persist_states": mcr.distinct + tres.distinct, "persist_transitions": mcr.states + tres.states,
+        "persist_sequences_from_tlc": n_tlc, "persist_sequence_length": depth,
+        "persist_longest_sequences_replayed_1_in": sample_mod,
+        "persist_random_sequences": len(rnd), "persist_random_length": len(rnd[0]) if rnd else 0,
+        "persist_recorded_events": len(recs), "persist_events_rejected": len(bad),
+        "persist_operator_kinds_seen": kinds_seen, "persist_alphabet": [a for a, _, _ in PERSIST_ACTS],
+        "persist_negative_controls_rejected": neg,
+    })
+    samples = [_path_str(p) for p in sorted(nodes, key=lambda q: (-len(q), q))[:: max(1, len(nodes) // 3)][:3]]
+    return mcr, tres, n_paths, samples
+
+
+def _owned_names():
+    names = []
+    for n in DIMS:
+        names += [f"b{n}", f"B{n}", f"x0{n}", f"v0{n}"]
+    return names + ["idx_r", "idx_c", "S3", "d3", "a2", "c2", "perm3"]
+
+
+# =================================================================================================
+def run(tier):
+    t0 = time.time()
+    viol, cov, extra = [], {}, []
+    phase = {}
+    wd = tla.make_build_dir(PROP)
+    try:
+        tp = time.time()
+        runs, n_orders, rsamples = registry_part(tier, wd, viol, cov, extra)
+        phase["registry"] = round(time.time() - tp, 2)
+        tp = time.time()
+        mcr, tres, n_paths, psamples = persist_part(tier, wd, viol, cov)
+        phase["persistence"] = round(time.time() - tp, 2)
+    finally:
+        common.cleanup(wd)
+    cov.update({
+        "states": cov["registry_states"] + cov["persist_states"],
+        "transitions": cov["registry_transitions"] + cov["persist_transitions"],
+        "traces_validated_against_impl": n_orders + n_paths,
+        "evaluations": cov["registry_steps_observed"] + cov["persist_recorded_events"],
+        "distinct_nontrivial": cov["registry_orders_replayed_in_fresh_interpreters"] + cov["persist_sequences_from_tlc"],
+        "rule": "one trace = one construction order replayed in a fresh interpreter, or one operation sequence (root-to-"
+                "leaf path of the recorded tree) validated by Trace_Persist; non-trivial = orders of >= 2 templates / "
+                "sequences of >= 2 operations",
+        "samples": rsamples + psamples,
+        "exhaustive": True,
+        "negative_controls_rejected": cov["persist_negative_controls_rejected"],
+        "phase_wall_s": phase,
+        "checker_cmd": "tlc MC_Registry.tla (Registry.tla + generated RegistryModel.tla); tlc MC_Persist.tla (Persist.tla + "
+                       "generated PersistModel.tla); tlc Trace_Persist.tla",
+    })
+    return common.finish(PROP, tier, t0, cov, viol, ASSUMPTIONS, extra_print=extra)
+
+
+def replay(path):
+    v = json.load(open(path))
+    r = v.get("replay") or {}
+    if r.get("kind") == "order":
+        res = run_oneshot([{"kind": "order", "order": r["order"]}])[0]
+        bad = False
+        for st in res["steps"]:
+            ok = "leaves" in st and [x for x in st["leaves"]] == ["arr:" + p for p in st["params"]]
+            print(f"{st['t']:22s} {st.get('cls', '')}\n    leaves {st.get('leaves')}\n    params {st.get('params')}"
+                  f"\n    registry disagreements {st.get('culprits')} {st.get('exc', '')}")
+            rt = st.get("roundtrip", {})
+            sub = [s for s in st.get("substitution", []) if "exc" in s or s["changed"] != [s["target"]]]
+            if v["clause"] in ("leaves", "history_dependence") and st["t"] == r.get("template") and not ok:
+                bad = True
+            if v["clause"] == "roundtrip" and st["t"] == r.get("template") and ("exc" in rt or not all(rt.values())):
+                print("    roundtrip", rt)
+                bad = True
+            if v["clause"] == "substitution" and st["t"] == r.get("template") and sub:
+                print("    substitution", sub)
+                bad = True
+        if v["clause"] == "history_dependence" and v["attrs"].get("other_order"):
+            res2 = run_oneshot([{"kind": "order", "order": v["attrs"]["other_order"]}])[0]
+            a = next(st.get("leaves") for st in res["steps"] if st["t"] == r["template"])
+            b = next(st.get("leaves") for st in res2["steps"] if st["t"] == r["template"])
+            print(f"after {v['attrs']['other_order']}: {b}")
+            bad = a != b
+        if bad:
+            print(f"VIOLATION property={PROP} replay={path}")
+            return 1
+        return 0
+    if r.get("kind") == "persist":
+        from .. import fastimport
+        fastimport.install()
+        from .. import build  # noqa: F401
+        w = World()
+        ow, trip, moved = w.snapshot()
+        bad = False
+        for ai, x in r["path"]:
+            res = w.apply(ai, x)
+            ow2, trip2, moved = w.snapshot()
+            flags = []
+            if ow2 != ow:
+                flags.append("caller-owned arrays changed: " + str([n for n, a, b in zip(w.names, ow, ow2) if a != b]))
+            for i, (a, b) in enumerate(zip(trip, trip2)):
+                for k, nm in ((0, "dense"), (1, "annotations"), (2, "leaves")):
+                    if a[k if k < 2 else 3] != b[2 if k == 2 else k]:
+                        flags.append(f"{nm} of operator #{i + 1} ({a[4]}) changed")
+            for i in moved:
+                flags.append(f"leaves of operator #{i + 1} ({trip2[i][4]}) changed while it was densified")
+            print(f"{PERSIST_ACTS[ai - 1][0]}(#{x}) -> {res[:24]}   {'; '.join(flags)}")
+            bad = bad or bool(flags)
+            ow, trip = ow2, trip2
+        if bad:
+            print(f"VIOLATION property={PROP} replay={path}")
+            return 1
+        return 0
+    print("nothing to replay")
+    return 0
